@@ -466,9 +466,11 @@ class Gen(object):
             return
         if r < 0.7 and ma["probes"]:
             p = rng.choice(ma["probes"])
-            q = rng.choice(REC_ARG)
-            if q == "get_is_valid" and not ma["bounded"]:
+            q = rng.choice(REC_ARG + ["contains"])
+            if q in ("get_is_valid", "contains") and not ma["bounded"]:
                 q = "get_next"
+            if q == "contains":
+                return self.op("rec.contains", [a, p], client=client)
             sid = self.op("rec." + q, [a, p], result=(
                 None if q == "get_is_valid" else "tp"), client=client,
                 year=2000, safe=False, trunc=False)
@@ -726,8 +728,8 @@ def gen_directed(rng, index):
         op("rec.getitem", [x], [2])
         op("rec.getitem", [x], [-1])
         for probe in (taken + ".0", taken + ".1"):
-            for q in REC_ARG:
-                if q == "get_is_valid" and not meta["bounded"]:
+            for q in REC_ARG + ["contains"]:
+                if q in ("get_is_valid", "contains") and not meta["bounded"]:
                     continue
                 op("rec." + q, [x, probe])
         for d in (d1, d0, dw, dh):
@@ -1032,6 +1034,9 @@ class Sim(object):
                 return a[sc[0]]
             if meth in REC_ARG:
                 return getattr(a, meth)(ops[1])
+            if meth == "contains":
+                # membership: no __contains__, so Python iterates and compares
+                return [ops[1] in a, ops[1] in list(a)]
             if meth == "add":
                 return a + ops[1]
             if meth == "radd":
